@@ -98,7 +98,10 @@ def run(an: Analysis, rep):
         "private field of every data class reachable from CodeData the arm of normalize that handles the class resets it to the "
         "declared default (both sides constant-folded), every field whose type can reach a class with private fields is recursed "
         "into (tuples element-wise), hence the result does not depend on the artefacts of its input and normalize is idempotent; and "
-        "that the encoder's index assignment with no override is a function of first use only. History-stability through JSON "
+        "that the encoder's index assignment with no override is a function of first use only. R06.N folds normalize itself over a witness "
+        "CodeData in which every private field holds a non-default value at every place the model allows (also inside a nested code object "
+        "that sits at its natural position) and requires exactly 'private fields at their defaults, public fields untouched', twice. "
+        "History-stability through JSON "
         "rests additionally on C07's agreement rules and C12 (no hidden state); canonicity across table permutations additionally "
         "on the decoder being correct for the variant (C02, not decided here)."
     )
@@ -121,6 +124,11 @@ def run(an: Analysis, rep):
     rep.run(_c08e.r084, an, she6)
     rep.run(reset_rules, an, rep)
     rep.run(r06n, an, rep)
+    from . import c03 as _c03y
+    shy = _SR6(rep, "R06.Y", "the encoder's layout and table folded over witness block lists without overrides - what normalize returns (shared with C03's R03.E / R03.T): the code written for the "
+                             "normal form decodes to the normal form again (docstring slot, first-use order of the tables, jump targets)")
+    rep.run(_c03y.r03e, an, shy)
+    rep.run(_c03y.r03t, an, shy)
     fn, p, arms, fall_identity = parse_normalize(an)
     dcs, has_priv, reach = classes_with_private_reach(an)
     # R06.3: projection - every arm's result is built only from resets, recursion on the same field, or untouched public fields
